@@ -153,46 +153,60 @@ Record rcase := {
   rc_startup : bool;                            (* "startup" (or no argument) given *)
   rc_shutdown : bool;                           (* "shutdown" given *)
   rc_su : Z;                                    (* startup_time the trigger used (naive local) *)
-  rc_def_utc : Z;                               (* UTC instant of the definition *)
-  rc_remove_utc : Z;                            (* UTC instant at which the function was removed (end of observation) *)
+  rc_def_utc : Z;                               (* instant of the definition (monotonic time line, as UTC) *)
+  rc_remove_utc : Z;                            (* instant at which the function was removed (end of observation) *)
   rc_sun : list (Z * bool * option Z);
-  rc_calls : list (Z * nobs);                   (* every timer_trigger_next call of this trigger: (now, result) *)
-  rc_runs : list (Z * rkind);                   (* every run of the function: (UTC instant of the run, trigger_time) *)
-  rc_wellformed : bool                          (* harness: one startup_time for all calls, trigger_type "time", parsable times *)
+  rc_calls : list (Z * Z * nobs);               (* every timer_trigger_next call: (monotonic instant, now, result) *)
+  rc_runs : list (Z * rkind);                   (* every run of the function: (monotonic instant of the run, trigger_time) *)
+  rc_wellformed : bool;                         (* harness: one startup_time for all calls, trigger_type "time", parsable times *)
+  (* the wall clock relative to the monotonic clock: equal at rc_base, then losing rc_ppm microseconds per second (slewing)
+     and stepped by the given amounts (negative = set back) at the given monotonic instants *)
+  rc_base : Z;
+  rc_ppm : Z;
+  rc_steps : list (Z * Z)
 }.
 
-Definition rcall_case (c : rcase) (call : Z * nobs) : ncase :=
-  {| nc_specs := rc_specs c; nc_now := fst call; nc_su := rc_su c; nc_sun := rc_sun c; nc_obs := snd call |}.
+(* what the wall clock shows (as a UTC instant) at monotonic instant u *)
+Definition rc_wall (c : rcase) (u : Z) : Z :=
+  rc_base c + (u - rc_base c) * (1000000 - rc_ppm c) / 1000000
+  + fold_left (fun acc s => if fst s <=? u then acc + snd s else acc) (rc_steps c) 0.
 
-(* tie: every next-time computation the running trigger made is reproduced by the Model *)
-(* the computation that produced instant t: (now, next_time_adj) *)
-Definition call_for (c : rcase) (t : Z) : option (Z * Z) :=
+Definition rcall_case (c : rcase) (call : Z * Z * nobs) : ncase :=
+  {| nc_specs := rc_specs c; nc_now := snd (fst call); nc_su := rc_su c; nc_sun := rc_sun c; nc_obs := snd call |}.
+
+(* the computation that produced instant t: (monotonic instant of the call, now, next_time_adj) *)
+Definition call_for (c : rcase) (t : Z) : option (Z * Z * Z) :=
   match find (fun call => match snd call with ORes (Some (t', _)) => t' =? t | _ => false end) (rc_calls c) with
-  | Some (now, ORes (Some (_, adj))) => Some (now, adj)
+  | Some (m, now, ORes (Some (_, adj))) => Some (m, now, adj)
   | _ => None
   end.
 
 (* when the Model's wake-up loop runs the function, if the first wait ends [e] microseconds off its target *)
-Definition predicted_run (tz : tzdata) (cfg : deviations) (legacy : bool) (now t adj e : Z) : option Z :=
-  let u0 := tz_lu tz now + (adj - now) + e in
-  if legacy then legacy_wake (tz_lu tz) (tz_ul tz) cfg 8 t u0 else default_wake (tz_lu tz) (tz_ul tz) cfg 8 t adj u0.
+Definition predicted_run (tz : tzdata) (cfg : deviations) (c : rcase) (m now t adj e : Z) : option Z :=
+  let u0 := m + (adj - now) + e in
+  if rc_legacy c then legacy_wake (tz_lu tz) (tz_ul tz) (rc_wall c) cfg 14 t u0
+  else default_wake (tz_lu tz) (tz_ul tz) (rc_wall c) cfg 14 t adj u0.
 
 Definition WAKE_JITTER : list Z := [0; -1; 1; -2; 2; -3; 3].    (* float rounding of the virtual clock, in microseconds *)
 
+Definition mono_runs (c : rcase) : list (Z * Z) :=
+  flat_map (fun r => match snd r with RTime t => [(fst r, t)] | _ => [] end) (rc_runs c).
+
 Definition run_predicted (tz : tzdata) (cfg : deviations) (c : rcase) (r : Z * Z) : bool :=
   match call_for c (snd r) with
-  | Some (now, adj) =>
-      existsb (fun e => match predicted_run tz cfg (rc_legacy c) now (snd r) adj e with
-                        | Some u => Z.abs (u - fst r) <=? 3
+  | Some (m, now, adj) =>
+      existsb (fun e => match predicted_run tz cfg c m now (snd r) adj e with
+                        | Some u => Z.abs (u - fst r) <=? 5
                         | None => false
                         end) WAKE_JITTER
   | None => false
   end.
 
+(* tie: every next-time computation the running trigger made, and the moment of every run, is reproduced by the Model *)
 Definition rcase_model_ok (tz : tzdata) (cfg : deviations) (c : rcase) : bool :=
   rc_wellformed c &&
   forallb (fun call => ncase_model_ok tz cfg (rcall_case c call)) (rc_calls c) &&
-  forallb (run_predicted tz cfg c) (flat_map (fun r => match snd r with RTime t => [(fst r, t)] | _ => [] end) (rc_runs c)).
+  forallb (run_predicted tz cfg c) (mono_runs c).
 
 (* the instants that must fire: the chain of conformant successors from startup_time up to the removal *)
 Fixpoint expected_instants (fuel : nat) (tz : tzdata) (c : rcase) (now : Z) : option (list Z) :=
@@ -202,7 +216,7 @@ Fixpoint expected_instants (fuel : nat) (tz : tzdata) (c : rcase) (now : Z) : op
       match next_list (table_scale doc_scale_table) (sun_lookup (rc_sun c)) cron_next_impl (tz_lu tz) (tz_ul tz) all_off false
                       (rc_specs c) now (rc_su c) with
       | ROk (Some (t, _)) =>
-          if tz_lu tz t <? rc_remove_utc c
+          if tz_lu tz t <? rc_wall c (rc_remove_utc c)
           then match expected_instants f tz c (if t =? now then t + 1 else t) with
                | Some l => Some (t :: l)
                | None => None
@@ -213,13 +227,16 @@ Fixpoint expected_instants (fuel : nat) (tz : tzdata) (c : rcase) (now : Z) : op
       end
   end.
 
+(* (what the wall clock showed when the function ran, trigger_time) *)
 Definition time_runs (c : rcase) : list (Z * Z) :=
-  flat_map (fun r => match snd r with RTime t => [(fst r, t)] | _ => [] end) (rc_runs c).
+  flat_map (fun r => match snd r with RTime t => [(rc_wall c (fst r), t)] | _ => [] end) (rc_runs c).
 
-Definition RUN_TOLERANCE : Z := 1000.     (* microseconds: virtual-clock float rounding, never a whole second *)
+Definition RUN_TOLERANCE : Z := 1000.     (* microseconds late: virtual-clock float rounding, never a whole second *)
+Definition RUN_EARLY : Z := 5.            (* microseconds early: the default subsystem's own 1 us tolerance plus float rounding *)
 
+(* not before the instant on the wall clock, and on time *)
 Definition on_time (tz : tzdata) (r : Z * Z) : bool :=
-  let d := fst r - tz_lu tz (snd r) in (- RUN_TOLERANCE <=? d) && (d <=? RUN_TOLERANCE).
+  let d := fst r - tz_lu tz (snd r) in (- RUN_EARLY <=? d) && (d <=? RUN_TOLERANCE).
 
 Definition count_kind (c : rcase) (f : rkind -> bool) : nat := length (filter (fun r => f (snd r)) (rc_runs c)).
 
